@@ -390,6 +390,17 @@ def _check_ctor_body(case, name, info, ref, lib, pieces, exp, inner, fails, g, s
             f = Fail(f'deserialize/{d[0]}/{d[1]}', f'at {d[2]}: {d[3]}; input {exp[:60].hex()} ({len(exp)} bytes)')
         elif used != len(exp):
             f = Fail('deserialize/consumed-length', f'{name}: consumed {used} of {len(exp)}')
+        else:
+            # the caller empties / edits the dictionaries it was given; the same bytes parsed again give the same value
+            from harness.core import scramble
+            scramble(val)
+            ok2, res2 = call(schemas.deserialize, exp)
+            if not ok2 or not (isinstance(res2, tuple) and len(res2) == 2):
+                f = Fail('deserialize/second-parse-raises-after-the-first-result-was-edited', f'{name}: {res2!r}'[:300])
+            else:
+                d = cmp_obj(name, ref, res2[0], True, name)
+                if d or res2[1] != len(exp):
+                    f = Fail(f'deserialize/second-parse-differs-after-the-first-result-was-edited/{d[0] if d else "length"}', f'{name}: {d}')
     if f is not None:
         # input classes whose mis-parse shifts the framing of everything behind it: one root cause, one signature
         if 'vector-of-builtin-nonempty' in info['kinds']:
